@@ -3,17 +3,17 @@
 from .. import argbind, fx, state
 
 LEVEL = "other"
-TECHNIQUE = "global-state effect lints: enumeration of every read of the mutable global parameter object, cache-key vs builder read-set comparison, memo-site purity, memo identity, precision pinning; inventory of every write to module-level state with a parameter-dependency analysis of memo keys"
+TECHNIQUE = "global-state effect lints: enumeration of every read of the mutable global parameter object, cache-key vs builder read-set comparison, memo-site purity, memo identity, precision pinning, escape analysis of closures (no evaluator handed out for later use reads a parameter group); inventory of every write to module-level state with a parameter-dependency analysis of memo keys"
 LEVEL_TEXT = (
     "Decides which functions read the mutable global parameter object (only the sanctioned resolver may), whether "
     "each FMM cache key contains every parameter its builder reads, whether memoised values of a space are computed "
     "from the object's own state only, that weak_form() returns the memo on every later call, and that the Numba "
-    "assemblers compute in double precision with the requested precision selecting the result dtype only.  Dense, "
+    "assemblers compute in double precision with the requested precision selecting the result dtype only, and that no closure handed out for later use (potential evaluators, matvec functions) re-reads a parameter group when it runs.  Dense, "
     "sparse, singular and potential assemblers are clean; the FMM glue and the mass-matrix memo are not (recorded "
     "findings)."
 )
 LEVEL_NOTE = "Not decided: single- vs double-precision accuracy; equality with a fresh interpreter as an observation (needs execution)."
-EXPLANATION = "rules FX-GLOBAL-READ, FX-PARAM-SNAPSHOT, FX-PARAM-FORWARD, FX-CACHE-KEY, FX-MEMO, WEAKFORM-MEMO, PRECISION-PIN, FX-PROCESS-STATE"
+EXPLANATION = "rules FX-GLOBAL-READ, FX-PARAM-SNAPSHOT, FX-PARAM-FORWARD, FX-CACHE-KEY, FX-MEMO, WEAKFORM-MEMO, PRECISION-PIN, FX-LATE-READ, FX-PROCESS-STATE, ARG-NAME-BINDING"
 ASSUMPTIONS = ["GLOBAL_PARAMETERS is the only mutable module-level configuration object that affects numerical results (DEFAULT_* are read at construction through the same pattern)"]
 
 
@@ -24,5 +24,6 @@ def run(ctx):
     fx.memo_sites(ctx)
     fx.weak_form_memo(ctx)
     fx.precision_pin(ctx)
+    fx.late_reads(ctx)
     state.process_state(ctx)
     argbind.repo_argument_binding(ctx)
